@@ -15,11 +15,19 @@ import (
 	"io"
 	"net/http"
 	"time"
+	"unsafe"
 
 	"` + WorldMod + `/d/x/alpha"
 )
 
 type Key struct{ ID int }
+
+// the one basic type that lives in a package
+type Unsafe interface {
+	Ptr(p unsafe.Pointer) uintptr
+	Many(ps ...unsafe.Pointer) (byName map[string][]unsafe.Pointer)
+	Anon(unsafe.Pointer, func(unsafe.Pointer) *unsafe.Pointer) (unsafe.Pointer, error)
+}
 
 func (k Key) String() string { return "k" }
 
@@ -116,7 +124,7 @@ type Sleeper interface {
 
 func CorpusRaw(seed int64, tier string) []*Case {
 	src := &SrcPkg{Name: "rawsrc", Pkgs: []Pkg{dep("alpha", "x", "alpha")}, Raw: map[string]string{"raw.go": rawMain}}
-	ifaces := []string{"Base", "Embeds", "IntStore", "KeyStore", "ReaderAlias", "DepAlias", "Store", "Cache", "UserStore", "NamedStore", "Pair", "Results", "Literals"}
+	ifaces := []string{"Base", "Embeds", "IntStore", "KeyStore", "ReaderAlias", "DepAlias", "Store", "Cache", "UserStore", "NamedStore", "Pair", "Results", "Literals", "Unsafe"}
 	var cases []*Case
 	judge := []string{"C01", "C02", "C08", "C09", "C10", "C11", "C12", "C14", "C16", "C19", "C20"}
 	for i, n := range ifaces {
